@@ -89,7 +89,8 @@ class CouplingSDE:
         nb_of_jumps = mc_path.jump_times.size
         dimension = self.model.dimension()
 
-        zi = np.stack((np.array([self.model.x0]).T, np.array([self.model.x0]).T))
+        x0 = np.array([self.model.x0], dtype=float).T
+        zi = np.stack((x0, x0))
         z_drift = np.zeros(shape=(2, dimension, nb_of_jumps))
         z_diffusion = np.zeros(shape=(2, dimension, nb_of_jumps))
         z_jump = np.zeros(shape=(2, dimension, nb_of_jumps))
